@@ -476,3 +476,39 @@ Definition check_C06 := failing (fun c => panic_walk 0 (cs_obs c)).
 (* ---------- C07: two executions of the same history on the implementation ----------
    95 the app hashes committed after this end-block differ between the two executions *)
 Definition check_C07 := failing (fun c => map (fun k => (k, 95)) (cs_hashdiff c)).
+
+(* ---------- C17: export of the final state imported into a fresh application ----------
+   96 InitChain of the fresh application panicked (or the export failed)
+   97 tenants / pending records / by-request-id lookups / ballots / delegations / miss counters differ
+      from the state that was exported      98 exporting again gives another genesis document *)
+Fixpoint last_snap (os : list iobs) (acc : option snap) : option snap :=
+  match os with
+  | [] => acc
+  | IEnd _ _ (Some sn) :: os' => last_snap os' (Some sn)
+  | _ :: os' => last_snap os' acc
+  end.
+
+Definition lookup_eqb (a b : Z * bytes * option Z) : bool :=
+  (fst (fst a) =? fst (fst b)) && bytes_eqb (snd (fst a)) (snd (fst b)) && option_eqb Z.eqb (snd a) (snd b).
+
+Definition chk_C17 (c : case) : list (Z * Z) :=
+  let k := Z.of_nat (length (cs_events c)) in
+  match cs_reimport c with
+  | None => []
+  | Some (cls, sn, same) =>
+      (if tclass_eqb cls COk then [] else [(k, 96)])
+      ++ (match sn, last_snap (cs_obs c) None with
+          | Some a, Some b =>
+              if list_eqb tenant_eqb (s_tenants (sn_s a)) (s_tenants (sn_s b))
+                 && list_eqb utxr3_eqb (s_utxrs (sn_s a)) (s_utxrs (sn_s b))
+                 && list_eqb lookup_eqb (sn_lookup a) (sn_lookup b)
+                 && list_eqb zb_eqb (sn_prevotes a) (sn_prevotes b)
+                 && list_eqb zvd_eqb (sn_votes a) (sn_votes b)
+                 && list_eqb zz_eqb (sn_deleg a) (sn_deleg b)
+                 && list_eqb zz_eqb (sn_miss a) (sn_miss b)
+              then [] else [(k, 97)]
+          | _, _ => []
+          end)
+      ++ (if tclass_eqb cls COk && negb same then [(k, 98)] else [])
+  end.
+Definition check_C17 := failing chk_C17.
